@@ -530,6 +530,8 @@ func checkC16(c *Check) {
 	ruleDictProvenance(c, p, "R16.2")
 	ruleWindowRetention(c, p, "R16.3")
 	ruleWindowNumeric(c, p, "R16.3", "")
+	ruleModeAfterInit(c, p, "R16.8")
+	c.RuleDoc["R16.8"] = "the sequential/concurrent decision of Read and WriteTo uses the mode as it is after Reader.init"
 	// the dictionary path of the block decoder: reads stay inside dict[0:len] and the
 	// underflow error is raised only for offsets that really reach before the dictionary
 	c.RuleDoc["R16.6"] = "assembly decoder: dictionary accesses in bounds, dictionary error exit justified"
@@ -1158,6 +1160,10 @@ func checkC18(c *Check) {
 	c.RuleDoc["R18.12"] = "SizeOption sets flag and size unconditionally for the compressing reader as for the Writer"
 	ruleAdapterAccounting(c, p, "R18.11")
 	c.RuleDoc["R18.11"] = "byte accounting of the output adapter (bounds prover): Write adds exactly len(p) pending bytes, reset consumes exactly len(out) or none, clear leaves none; positions stay inside their slices"
+	ruleRawFlagPairing(c, p, "R18.19")
+	c.RuleDoc["R18.19"] = "= R02.8: the raw flag of a block is set or cleared on every path, to match the bytes stored (the compressing reader reuses one block object for the whole frame)"
+	ruleTrailerLayout(c, p, "R18.20")
+	c.RuleDoc["R18.20"] = "= R09.5: the trailer is the end mark followed by the checksum only when declared"
 	ruleCompressingReaderReset(c, p, "R18.17")
 	c.RuleDoc["R18.17"] = "CompressingReader.Reset re-arms frame, state and source on every path"
 	ruleApplyOnlyInitial(c, p, "R18.16")
